@@ -653,10 +653,9 @@ class SimulateOde(DeterministicOde):
 
         # if exact, each point corresponds to a transitions and has weight 1.
         for i in range(n_trans):
-            if exact:
-                hist, bin_edges=np.histogram(t, bins=targetTime)
-            else:
-                hist, bin_edges=np.histogram(t[1:], bins=targetTime, weights=dX[:,i])
+            # event times are t[1:] (t[0] is the initial time); column i of dX holds the
+            # number of times transition i fired at each of them (one-hot in exact mode)
+            hist, bin_edges=np.histogram(t[1:], bins=targetTime, weights=dX[:,i])
             X_out[:,i]=hist            
 
         return X_out
